@@ -887,6 +887,14 @@ func TestVerifCfg(t *testing.T) {
 			}
 		}
 		out.Case(id, "for", cCtor("CFor", cNi(id), vSnapCoq(s), res), map[string]any{"snap": s, "accepted": err == nil})
+		if s.Directed == "" { // the whole Config on the random snapshots: Model/CfgFull.v full_for
+			id++
+			resF := cNone
+			if err == nil {
+				resF = cSome(vFullCoq(cfg))
+			}
+			out.Case(id, "fullfor", cCtor("CFullFor", cNi(id), "VNone", vSnapCoqFull(s), resF), map[string]any{"snap": s, "accepted": err == nil})
+		}
 	}
 
 	// ---- ParseCIDR on its own: exactness of ipaddr.Summarize on wide ranges
